@@ -509,10 +509,8 @@ func (w *world) step() {
 		}
 		if len(hot) > 0 && w.pct(60, "goOnNearTheWrap") {
 			c = pick(w, "hotClient", hot)
-			switch act {
-			case kOpen, kOpenDowngrade, kClose, kLock, kLocku, kRead, kWrite, kSetattr, "retx", "retx_diff_op", "retx_diff_sid":
-			default:
-				act = pick(w, "hotAction", hotActions)
+			if acts := w.hotActions(c); !contains(acts, act) {
+				act = pick(w, "hotAction", acts)
 			}
 		}
 	}
@@ -1232,7 +1230,11 @@ func (w *world) genLock(c *cClient, dev bool) *opSpec {
 	off, length, _ := w.drawRange()
 	lt := int32(pick(w, "lt", []int{1, 2, 2, 3, 4}))
 	// Existing lock state?
-	if co, lok := w.pickLock(c); co != nil && w.pct(60, "existing") {
+	existing := 60
+	if w.hotLock(c) {
+		existing = 90
+	}
+	if co, lok := w.pickLock(c); co != nil && w.pct(existing, "existing") {
 		lo := c.lockOwnerByKey(lok)
 		op := &opSpec{Kind: kLock, FH: co.fh, NewLO: false, LockOwner: lok, LockSeq: lo.nxt(), Stateid: co.locks[lok], LockType: lt, Offset: off, Length: length}
 		if dev {
